@@ -6,6 +6,12 @@
 
 package appcore
 
+// The constructor keeps the caller's consumer list as it is (nil entries included) and touches nothing else:
+// callers such as rtcmfilter close the channels of their own list afterwards.
+//@ func New
+//@ ensures result != nil && fresh(result)
+//@ ensures[C09] result.Config == conf && len(result.Channels) == len(channels) && forall(i, 0, len(channels), result.Channels[i] == channels[i])
+
 // Fan-out stage: every message received from the file handler's message channel is
 // sent, as a value and in order, to every non-nil consumer channel; nothing else is
 // sent and no channel is closed here.  fwd is the number of messages forwarded (all
